@@ -361,7 +361,7 @@ PROGRAMS = {
                                 [N('STMT_EXPR', N('CASE', 'CASE_KW', 'IDENT', 'COMMA', 'IDENT', 'L_BRACE',
                                                   N('CLAUSE', N('ALTERNATIVE_PATTERN', N('VARIANT_REF', 'U_IDENT', N('VARIANT_REF_FIELD_LIST', 'L_PAREN', N('VARIANT_REF_FIELD', N('LABEL', 'IDENT'), 'COLON', 'IDENT', 'COMMA'), N('VARIANT_REF_FIELD', 'DOT_DOT'), 'R_PAREN'))), 'COMMA',
                                                     N('ALTERNATIVE_PATTERN', N('PATTERN_LIST', 'L_SQUARE', 'IDENT', 'COMMA', N('PATTERN_SPREAD', 'DOT_DOT', 'IDENT'), 'R_SQUARE')), 'R_ARROW', LIT()),
-                                                  N('CLAUSE', N('ALTERNATIVE_PATTERN', N('LITERAL', LIT()), 'VBAR', N('LITERAL', LIT())), 'COMMA', N('ALTERNATIVE_PATTERN', N('HOLE', 'DISCARD_IDENT')),
+                                                  N('CLAUSE', N('ALTERNATIVE_PATTERN', N('LITERAL', LIT())), 'COMMA', N('ALTERNATIVE_PATTERN', N('HOLE', 'DISCARD_IDENT')),
                                                     N('PATTERN_GUARD', 'IF_KW', N('BINARY_OP', 'IDENT', OPNP(), 'IDENT')), 'R_ARROW', N('BLOCK', 'L_BRACE', 'IDENT', 'R_BRACE')),
                                                   N('CLAUSE', N('ALTERNATIVE_PATTERN', N('AS_PATTERN', N('PATTERN_TUPLE', 'HASH', 'L_PAREN', 'IDENT', 'COMMA', 'DISCARD_IDENT', 'R_PAREN'), 'AS_KW', 'IDENT')), 'COMMA',
                                                     N('ALTERNATIVE_PATTERN', N('PATTERN_CONCAT', N('LITERAL', 'STRING'), 'LT_GT', N('PATTERN_VARIABLE', N('NAME', 'IDENT')))), 'R_ARROW', 'IDENT'),
@@ -381,6 +381,11 @@ PROGRAMS = {
                         N('VARIANT_FIELD', N('TYPE_APPLICATION', 'U_IDENT', 'L_PAREN', N('FN_TYPE', 'FN_KW', 'L_PAREN', 'R_PAREN', 'R_ARROW', 'IDENT'), 'COMMA', N('TYPE_APPLICATION', 'U_IDENT', 'L_PAREN', 'U_IDENT', 'R_PAREN'), 'R_PAREN')), 'R_PAREN'),
                       'R_BRACE'),
                     N('MODULE_CONSTANT', 'CONST_KW', 'IDENT', 'COLON', N('TYPE_APPLICATION', 'U_IDENT', 'L_PAREN', N('TUPLE_TYPE', 'HASH', 'L_PAREN', 'U_IDENT', 'COMMA', 'IDENT', 'DOT', 'U_IDENT', 'R_PAREN'), 'R_PAREN'), 'EQ', LIT())),
+    # Gleam: `|` separates the alternatives of a clause, each alternative is a comma-separated list with one pattern per subject
+    'case-alternatives': N('SOURCE_FILE', FN([N('PARAM_LIST', 'L_PAREN', 'IDENT', 'COMMA', 'IDENT', 'R_PAREN')],
+                                             [N('STMT_EXPR', N('CASE', 'CASE_KW', 'IDENT', 'COMMA', 'IDENT', 'L_BRACE',
+                                                               N('CLAUSE', N('ALTERNATIVE_PATTERN', LIT(), 'COMMA', LIT()), 'VBAR', N('ALTERNATIVE_PATTERN', LIT(), 'COMMA', LIT()), 'R_ARROW', LIT()),
+                                                               'R_BRACE'))])),
     'item-boundaries': N('SOURCE_FILE', N('TYPE_ALIAS', 'TYPE_KW', 'U_IDENT', 'EQ', 'U_IDENT'), N('FUNCTION', 'FN_KW', 'IDENT', 'L_PAREN', 'R_PAREN', 'L_BRACE', N('STMT_EXPR', 'IDENT'), N('STMT_EXPR', 'IDENT', 'L_PAREN', 'R_PAREN'), 'R_BRACE'),
                          N('ADT', 'TYPE_KW', 'U_IDENT', 'L_BRACE', 'U_IDENT', 'R_BRACE'), N('IMPORT', 'IMPORT_KW', 'IDENT'), N('MODULE_CONSTANT', 'CONST_KW', 'IDENT', 'EQ', 'IDENT', 'DOT', 'IDENT'),
                          N('FUNCTION', 'PUB_KW', 'FN_KW', 'IDENT', 'L_PAREN', 'R_PAREN', 'L_BRACE', 'R_BRACE')),
@@ -472,7 +477,7 @@ def confirm(chk, res, oracle, sp, label):
         okc = True
         if all('wraps nothing but' in w for w in v['why']):
             okc = 'tree' in nat and bool(degenerate(nat['tree']))          # the native tree must show the same double nesting
-        chk.violation('structure', 'bounded', '%s: %s; program %r; %s' % (label, '; '.join(v['why'])[:300], txt, problem[:400]), {'text': txt, 'kinds': v['cex']['kinds']}, confirmed=okc)
+        chk.violation('structure' + (':' + label.split('program ')[1] if label.startswith('program ') else ''), 'bounded', '%s: %s; program %r; %s' % (label, '; '.join(v['why'])[:300], txt, problem[:400]), {'text': txt, 'kinds': v['cex']['kinds']}, confirmed=okc)
 
 
 def _sexp(t, txt):
